@@ -34,6 +34,7 @@ import (
 	"tunnox-core/internal/core/storage"
 	"tunnox-core/internal/core/storage/hybrid"
 	"tunnox-core/internal/core/storage/memory"
+	stypes "tunnox-core/internal/core/storage/types"
 	rstore "tunnox-core/internal/core/storage/redis"
 	"tunnox-core/internal/core/types"
 	"tunnox-core/internal/packet"
@@ -55,12 +56,13 @@ const (
 	opSend      = 8  // n x via: node n forwards a command (via 0: SendCommandToClient) / an HTTP request (via 1: SendHTTPProxyRequest) to client x
 	opSendRace  = 9  // n c x shape via pos: the same, while x's handshake on connection c of the SAME node completes inside the
 	//                forwarder's lookup (pos 0: right before the client-index read, 1: right before the conn_state read)
+	opAuthLost  = 13 // n c x shape: the handshake authenticates, but its response cannot be written (peer reset): NOT a successful handshake
 	opSReg      = 10 // n c x ctl
 	opSUnreg    = 11 // n c
 	opSRefresh  = 12 // n c
 )
 
-var opName = map[int]string{0: "Connect", 1: "AuthOK", 2: "AuthFail", 3: "Kick", 4: "Heartbeat", 5: "Close", 6: "Tick", 7: "StaleSweep", 8: "Forward", 9: "ForwardRacingLogin",
+var opName = map[int]string{0: "Connect", 1: "AuthOK", 2: "AuthFail", 3: "Kick", 4: "Heartbeat", 5: "Close", 6: "Tick", 7: "StaleSweep", 8: "Forward", 9: "ForwardRacingLogin", 13: "HandshakeResponseLost",
 	10: "Register", 11: "Unregister", 12: "Refresh"}
 
 type caseIn struct {
@@ -94,11 +96,12 @@ type caseOut struct {
 type transport struct {
 	id     string
 	closed bool
+	fail   bool // writes fail although the transport is not closed (peer reset)
 }
 
 func (t *transport) Read(p []byte) (int, error) { return 0, io.EOF }
 func (t *transport) Write(p []byte) (int, error) {
-	if t.closed {
+	if t.closed || t.fail {
 		return 0, errors.New("transport closed")
 	}
 	return len(p), nil
@@ -196,7 +199,7 @@ func connNum(s string) int {
 }
 
 func ptrShape(backend string) bool {
-	return backend == "memory" || backend == "hybrid-mem" || backend == "hybrid-shared-mem"
+	return backend == "memory" || backend == "hybrid-mem" || backend == "hybrid-shared-mem" || backend == "hybrid-persist"
 }
 
 func newWorld(backend string, nodes int, ttl time.Duration, withSessions bool) *world {
@@ -212,7 +215,7 @@ func newWorld(backend string, nodes int, ttl time.Duration, withSessions bool) *
 	var sharedMem *memory.Storage
 	var sharedHybrid *hybrid.Storage
 	switch backend {
-	case "memory", "hybrid-shared-mem":
+	case "memory", "hybrid-shared-mem", "hybrid-persist":
 		sharedMem = memory.New(ctx)
 	case "hybrid-mem":
 		// the single-node default: hybrid storage whose "shared" keys fall back to the local memory cache
@@ -230,6 +233,11 @@ func newWorld(backend string, nodes int, ttl time.Duration, withSessions bool) *
 			w.st[n] = sharedMem
 		case "hybrid-mem":
 			w.st[n] = sharedHybrid
+		case "hybrid-persist":
+			// the cluster-with-database deployment: private local cache, ONE shared cache, persistence ENABLED
+			cfg := hybrid.DefaultConfig()
+			cfg.EnablePersistent = true
+			w.st[n] = hybrid.NewWithSharedCache(ctx, memory.New(ctx), sharedMem, stypes.NewNullPersistentStorage(), cfg)
 		case "hybrid-shared-mem":
 			// tiered storage per node: a private local cache and ONE shared cache (an in-memory one here)
 			w.st[n] = hybrid.NewWithSharedCache(ctx, memory.New(ctx), sharedMem, nil, nil)
@@ -311,6 +319,11 @@ func (w *world) apply(o []int, tr map[[2]int]*transport) bool {
 		err := w.sms[n].HandlePacket(&types.StreamPacket{ConnectionID: connName(c), Timestamp: time.Now(),
 			Packet: &packet.TransferPacket{PacketType: packet.Handshake, Payload: payload}})
 		return err != nil
+	case opAuthLost:
+		if t := tr[[2]int{n, arg(o, 2)}]; t != nil {
+			t.fail = true
+		}
+		return w.apply([]int{opAuthOK, n, arg(o, 2), arg(o, 3), arg(o, 4)}, tr)
 	case opKick:
 		w.sms[n].KickOldControlConnection(int64(arg(o, 2)), connName(arg(o, 3)))
 		return false
@@ -482,11 +495,12 @@ type ghost struct {
 	reg      map[[2]int]int  // (node, conn) -> client, registered control connection (session: in the registry)
 	open     map[int]map[[2]int]bool // client -> (node, conn) authenticated as client and not yet closed
 	cur      map[int]*cur
+	rsSkip   map[int]bool // the runtime-state expectation is suspended (a handshake whose response was lost moved it: known finding, realauth mode)
 }
 
 func newGhost(ttl int, ptr, sess bool) *ghost {
 	return &ghost{ttl: ttl, ptr: ptr, session: sess, conns: map[[2]int]bool{}, reg: map[[2]int]int{},
-		open: map[int]map[[2]int]bool{}, cur: map[int]*cur{}}
+		open: map[int]map[[2]int]bool{}, cur: map[int]*cur{}, rsSkip: map[int]bool{}}
 }
 
 func (g *ghost) dropConn(c int) {
@@ -543,7 +557,15 @@ func (g *ghost) step(o []int, errFlag bool, now int) {
 			}
 		}
 		g.reg[[2]int{n, c}] = x
+		delete(g.rsSkip, x)
 		g.login(n, c, x, now)
+	case opAuthLost:
+		// not a successful handshake: nothing is registered for the lookup; the connection sits in the registry (authenticated
+		// by the auth handler) until it is closed
+		if x := arg(o, 3); x > 0 {
+			g.rsSkip[x] = true
+			g.reg[[2]int{n, arg(o, 2)}] = -x // in the registry, but not the client's indexed control connection
+		}
 	case opKick:
 		x, newc := arg(o, 2), arg(o, 3)
 		for k, y := range g.reg {
@@ -637,6 +659,8 @@ func (g *ghost) check(o []int, now int, clients []int, ans [][][3]int, msgs [][]
 						if arg(o, 3) == x {
 							key = "forwarder-removed-fresh-registration"
 						}
+					case opAuthLost:
+						key = "unanswered-handshake-took-the-index"
 					}
 					got := "NOT_FOUND"
 					if a[0] == 1 {
@@ -664,7 +688,7 @@ func (g *ghost) checkState(o []int, clients []int, rs [][][3]int) (string, strin
 	checked := 0
 	for xi, x := range clients {
 		cu := g.cur[x]
-		if x <= 0 || cu == nil || !cu.valid {
+		if x <= 0 || cu == nil || !cu.valid || g.rsSkip[x] {
 			continue
 		}
 		for m, row := range rs {
@@ -1046,7 +1070,7 @@ func main() {
 		return
 	}
 	variant = probeVariant()
-	for _, be := range []string{"memory", "redis", "hybrid-redis", "hybrid-shared-mem", "hybrid-mem"} {
+	for _, be := range []string{"memory", "redis", "hybrid-redis", "hybrid-shared-mem", "hybrid-mem", "hybrid-persist"} {
 		casByBackend[be] = probeCAS(be)
 		scasByBackend[be] = probeStateCAS(be)
 	}
